@@ -356,15 +356,14 @@ def fixAll (ss : List Stmt) : Nat → List Stmt → Outcome (List Stmt)
 
 /-! #### emission and listing -/
 
-/-- the loop of `get_binary_array` over one hex string: `hexLen/2` (rounded up) byte pairs; `none` = IndexError -/
-def emitHex (hex : Str) (hexLen : Nat) : Option Bytes :=
-  let rec go : Nat → Nat → Option Bytes
-    | 0, _ => some []
-    | n + 1, idx =>
-      match hex[idx]?, hex[idx + 1]? with
-      | some a, some b => (go n (idx + 2)).map ((digitVal a * 16 + digitVal b) :: ·)
-      | _, _ => none
-  go ((hexLen + 1) / 2) 0
+/-- the loop of `get_binary_array` over one hex string: `n` byte pairs taken from the front; `none` = IndexError -/
+def emitPairs : Nat → Str → Bytes → Option Bytes
+  | 0, _, acc => some acc.reverse
+  | n + 1, a :: b :: rest, acc => emitPairs n rest ((digitVal a * 16 + digitVal b) :: acc)
+  | _ + 1, _, _ => none
+
+/-- `for index in range(0, hex_len, 2): int(hex[index] + hex[index + 1], 16)` -/
+def emitHex (hex : Str) (hexLen : Nat) : Option Bytes := emitPairs ((hexLen + 1) / 2) hex []
 
 def emitValue (v : Value) : Option Bytes :=
   match v.hex?, v.hexLen? with
